@@ -16,7 +16,7 @@ CLAIM = dict(
     technique="runtime monitoring: host simulation of device launches calling the library's kernel-body functions per simulated thread "
               "(sequential schedules with a per-thread write-set monitor, guard regions, KERNEL_WRITE hook) under ASan+UBSan, "
               "and real concurrency on 8-16 std::threads under ThreadSanitizer; oracles: host evaluation and NumPy",
-    text="For 13 (quick) / 63 (thorough) compile-time view pipelines of depth 1..3 over device-tested operations and run-time operand "
+    text="For 16 (quick) / 66 (thorough) compile-time view pipelines of depth 1..3 over device-tested operations (incl. an explicit broadcast_to under unary / binary ufuncs whose other operand does not force the shape) and run-time operand "
          "shapes (dim 1..4), data and parameters, the harness mirrors the host side of cuda/hip context_t::run (get_function_composition, "
          "get_function_operands, device copies, device_array{ptr, static_vector<size_t,8>, dim}, output pointer + shape pointer + dim) "
          "and executes, for every thread of a 1-d launch, exactly create_mutable_array<0> / functional::apply / assign_result. "
